@@ -13,6 +13,8 @@ open Gallia Gallia.Proto Gallia.DbLog Gallia.DbTables
     mex <task> <req> <ret|rexc|exc|cancel> <reply|-> <exc|-> <analyze 0/1> <implicit 0/1>        -> ok
     mrun <ev,ev,...>   events: t<d> tick, c<i> call, f<i> finish, x<i> cancelTask, g / w / r / q writer get / commit /
                        retry / commitFail; prints "<calls> | rows | wire | retries" (wire = task:req,... in grant order)
+    lflag <events>     0/1 scanner.implicit_logging = False/True, o database opened, e ECU object created, a stored value applied,
+                       r request; prints for every request <flag used><flag asked for>
     treset             empty database, empty program
     top <op> [arg]     op in runMeta scanRun discoveryRun discoveryResult sessionTransition scanResult completeRunMeta
                        propertiesPre completeScanRun
@@ -219,6 +221,16 @@ def step' (s : St) (line : String) : St × String :=
       let t := if interrupted then afterInterruptedDisconnectT fin else afterDisconnectT fin
       ({ s with tables := t, tprog := [] },
        s!"{showTables t}|performed={fin.performed.length}|refused={fin.refused}|retries={fin.retries}|dead={if fin.writerDead then 1 else 0}|fk={if t.fkCheck then 1 else 0}|fkc={if fin.committed.fkCheck then 1 else 0}")
+    | none => (s, "bad-op")
+  | ["lflag", evs] =>
+    let ev? : List (Option LEvent) := evs.toList.map fun c =>
+      match c with
+      | '0' => some (.set false) | '1' => some (.set true) | 'o' => some .openDb | 'e' => some .createEcu
+      | 'a' => some .apply | 'r' => some .request | _ => none
+    match ev?.mapM id with
+    | some es =>
+      (s, if (flagsAt Flag.init es).isEmpty then "-" else
+        ",".intercalate ((flagsAt Flag.init es).map fun (u, w) => s!"{if u then 1 else 0}{if w then 1 else 0}"))
     | none => (s, "bad-op")
   | ["spec", n] =>
     match n.toNat? with
